@@ -8,5 +8,5 @@ WT=/tmp/wt-seedtest${ISO:-}; VS=/tmp/vseed${ISO:-}
 git -C $WT checkout -q --detach $(git -C /repo rev-parse HEAD); git -C $WT reset -q --hard; git -C $WT clean -qfd -e _build
 if [ "$P" != none ]; then git -C $WT apply $P 2>/dev/null || git -C $WT apply -3 $P 2>/dev/null || { echo "PATCH DOES NOT APPLY"; exit 9; }; fi
 mkdir -p $VS; rsync -a --delete --exclude build --exclude .git --exclude evidence --exclude replays/tmp /verif/ $VS/
-for c in "$@"; do echo "== $c"; (cd $VS && VERIF_REPO=$WT timeout 2400 python3 tools/run_check.py $c --tier ${TIER:-quick} 2>&1 | grep -v "^  detail\|DEADLYSIGNAL\|^KNOWN-FINDING" | cut -c1-260 | head -${LINES_MAX:-12}; ); done
+for c in "$@"; do echo "== $c"; (cd $VS && VERIF_REPO=$WT timeout 2400 python3 tools/run_check.py $c --tier ${TIER:-quick} 2>&1 | grep -v "^  detail\|DEADLYSIGNAL\|^KNOWN-FINDING\|nested bug in the same thread" | cut -c1-260 | head -${LINES_MAX:-12}; ); done
 git -C $WT reset -q --hard
